@@ -131,6 +131,7 @@ func run(r *vt.Run, t vt.TB, s spec) {
 	}
 	order := append(append(append([]int64{}, ps...), desc...), mixed...)
 	subsets := map[bool]int{}
+	keyForm := map[string]int{}
 	for _, p := range order {
 		row, present := want[p]
 		// low level
@@ -210,15 +211,33 @@ func run(r *vt.Run, t vt.TB, s spec) {
 		if tb.Spec.RowidAlias {
 			calls := 0
 			var last sqlittle.Row
-			err := hl.PKSelect("t", sqlittle.Key{p}, func(row sqlittle.Row) { calls++; last = row }, sub...)
+			// the rowid given as any of the Go types a Key is documented to
+			// accept and convert ("most Go datatypes")
+			kvs := keyForms(p)
+			kv := kvs[int(seed>>13)%len(kvs)]
+			keyForm[fmt.Sprintf("%T", kv)]++
+			err := hl.PKSelect("t", sqlittle.Key{kv}, func(row sqlittle.Row) { calls++; last = row }, sub...)
 			wantCalls := 0
 			if present {
 				wantCalls = 1
 			}
 			if err != nil || calls != wantCalls || (present && len(last) != len(sub)) {
-				fail("pk:subset", "PKSelect(%d, columns %v): %d callbacks (last row %#v), error %v; present=%v", p, sub, calls, last, err, present)
+				fail(fmt.Sprintf("pk:subset:%T", kv), "PKSelect(Key{%T(%v)}, columns %v): %d callbacks (last row %#v), error %v; present=%v", kv, kv, sub, calls, last, err, present)
 				return
 			}
+		}
+		if tb.Spec.RowidAlias && (seed>>7)%8 == 0 {
+			// numbers no rowid equals: between two integers, beyond int64
+			var nk interface{} = uint(1<<63) + uint(p&0xffff)
+			if p > -(1<<51) && p < 1<<51 {
+				nk = float64(p) + 0.5
+			}
+			calls := 0
+			if err := hl.PKSelect("t", sqlittle.Key{nk}, func(sqlittle.Row) { calls++ }, "rowid"); err != nil || calls != 0 {
+				fail("pk:non-rowid-number", "PKSelect(Key{%T(%v)}): %d callbacks, error %v; no rowid equals that number", nk, nk, calls, err)
+				return
+			}
+			keyForm["non-rowid-number"]++
 		}
 		// primary key select on an INTEGER PRIMARY KEY table
 		if tb.Spec.RowidAlias {
@@ -248,6 +267,9 @@ func run(r *vt.Run, t vt.TB, s spec) {
 	}
 	r.Count("lookups-with-column-subset", subsets[false])
 	r.Count("lookups-with-no-columns", subsets[true])
+	for k, n := range keyForm {
+		r.Count("pk-lookups-with-key-of-type-"+k, n)
+	}
 	if vt.Sampled(s, 10) {
 		diff, err := bt.SQLiteAgrees(env.O, env.Dir, built)
 		if err != nil {
@@ -258,4 +280,36 @@ func run(r *vt.Run, t vt.TB, s spec) {
 		}
 		r.Count("sqlite-validated", 1)
 	}
+}
+
+// keyForms gives the Go values that denote the integer p and that a Key
+// converts (key.go: int, uint, int32, uint32, float32, float64 and bool next
+// to int64).
+func keyForms(p int64) []interface{} {
+	out := []interface{}{p, p}
+	if int64(int(p)) == p {
+		out = append(out, int(p))
+	}
+	if int64(int32(p)) == p {
+		out = append(out, int32(p))
+	}
+	if p >= 0 {
+		out = append(out, uint(p))
+		if int64(uint32(p)) == p {
+			out = append(out, uint32(p))
+		}
+	}
+	if p > -(1<<53) && p < 1<<53 {
+		out = append(out, float64(p))
+	}
+	if p > -(1<<24) && p < 1<<24 {
+		out = append(out, float32(p))
+	}
+	if p == 0 {
+		out = append(out, false)
+	}
+	if p == 1 {
+		out = append(out, true)
+	}
+	return out
 }
